@@ -80,6 +80,17 @@ def nesting_sweeps():
             "[(0-9223372036854775807)..9223372036854775807]", "[1 ? 2, 3]", "y = 0 || [", "&x.x=xx || [", "func g(c) { x = c.d = 2 }; g({})", "1 || [1,2][0:1]",
             "^st力量-1&&'a'", "x='abc'; x[3]", "x='" + "a" * 40 + "'; x[40]", "this.x = 5; this.x", "&a = d; a", "func g(){return d}; g()", "[x,2]\n[x,2]",
             "5\n{'a':1", "dct = b(d)a(3)", ".\n", "\xff", "if", "break", "`{% %}`", ""]
+    # the operand stack filled to its last slot at every phase: a loop body that leaks slots (recorded finding while-body-stack-leak)
+    # reaches the 1000-slot line after a few hundred passes; which instruction meets the full stack depends on what was pushed
+    # before the loop and on the shape of the body, so prefixes of 0..3 slots x bodies ending in every kind of pushing
+    # instruction (block.pop of `if`, template block, dice of each family, ternary, ||, array / dict literal, call)
+    for prefix in ("", "1; ", "x = 1; ", "1; 2; ", "[1,2]; 'a'; 3; "):
+        for body in ("if 1 {}", "if 1 {}; 1", "1; if 1 {}", "if 0 {} else {}", "`{% if 1 {} %}`", "`a{1}b`", "f", "f + f", "[f, f]", "d4", "2d4k1", "b", "p2", "3a9", "3c8",
+                     "1 ? 2 : 3", "0 || 1", "[1, 2]", "{'a': 1}", "g0()", "[1,2,3].sum()", "x = [1,2][0]", "&cv = 1; cv", "y = 1; y", "this", "-1", "1 == 1"):
+            out.append(prefix + "func g0() { 1 }; while 1 { " + body + " }")
+    for n in (998, 999, 1000, 1001, 1002):
+        for item in ("1", "f", "d4", "'s'", "[1]"):
+            out.append("[" + ", ".join([item] * n) + "]")
     # shared sub-structure (a DAG, not a cycle): every step costs a handful of operations and doubles the TREE unfolding of the
     # value; printing (result text, repr, process text, templates, toStr) must stay proportional to the object graph
     for k in (3, 12, 30, 60):
